@@ -1,6 +1,7 @@
 /-
-  C20, translation tie: `closestChoice` (closest.go), TRANSLATED from /repo's source on every check
-  (tools/golean -> Generated/Trans.lean), never panics and returns the model's choice and distance.
+  C20, translation tie: `levenshtein` and `closestChoice` (closest.go), TRANSLATED from /repo's source on
+  every check (tools/golean -> Generated/Trans.lean), never panic and compute the model's distance, choice
+  and distance — for every input (the model's distance is proved to be the Levenshtein distance in C20.lean).
 -/
 import GoFlags.Generated.Trans
 import GoFlags.Closest
@@ -8,6 +9,265 @@ import GoFlags.Lemmas.GoSem
 
 namespace GoFlags.C20
 open GoFlags Bytes Generated
+
+/-! ### `levenshtein`: the Go function's 2-dimensional table against the model's row-by-row programme -/
+
+/-- one cell of the table, on the integers of the translated function -/
+def cellI (sc tc : Nat) (diag up left : Int) : Int :=
+  if sc = tc then diag
+  else
+    let d := diag + 1
+    let d := if left + 1 < d then left + 1 else d
+    if up + 1 < d then up + 1 else d
+
+theorem cellI_cast (sc tc diag up left : Nat) :
+    cellI sc tc (diag : Int) (up : Int) (left : Int) = ((levCell sc tc diag up left : Nat) : Int) := by
+  unfold cellI levCell
+  split
+  · rfl
+  · simp only
+    split <;> split <;> split <;> split <;> omega
+
+/-- the body of the inner loop writes one cell: row `i+1`, column `j+1` -/
+theorem loop4_step (sc tc : Nat) (pre post : List (List Int)) (ra rb ca cb : List Int) (diag up left x : Int)
+    (hlen : ca.length = ra.length) :
+    go_levenshtein_loop4 sc (pre.length : Int) (ra.length : Int) tc
+        (pre ++ (ra ++ diag :: up :: rb) :: (ca ++ left :: x :: cb) :: post) =
+      some (Go.LoopR.next (pre ++ (ra ++ diag :: up :: rb) :: (ca ++ left :: cellI sc tc diag up left :: cb) :: post)) := by
+  have e1 : ∀ C, Go.idx (pre ++ (ra ++ diag :: up :: rb) :: C :: post) (pre.length : Int) = some (ra ++ diag :: up :: rb) :=
+    fun C => Go.idx_at _ _ _ _ rfl
+  have e2 : ∀ C, Go.idx (pre ++ (ra ++ diag :: up :: rb) :: C :: post) ((pre.length : Int) + 1) = some C :=
+    fun C => Go.idx_at1 _ _ _ _ _ rfl
+  have e3 : ∀ C C', Go.setIdx (pre ++ (ra ++ diag :: up :: rb) :: C :: post) ((pre.length : Int) + 1) C' =
+      some (pre ++ (ra ++ diag :: up :: rb) :: C' :: post) := fun C C' => Go.set_at1 _ _ _ _ _ _ rfl
+  have r1 : Go.idx (ra ++ diag :: up :: rb) (ra.length : Int) = some diag := Go.idx_at _ _ _ _ rfl
+  have r2 : Go.idx (ra ++ diag :: up :: rb) ((ra.length : Int) + 1) = some up := Go.idx_at1 _ _ _ _ _ rfl
+  have c1 : ∀ y, Go.idx (ca ++ left :: y :: cb) (ra.length : Int) = some left := fun y => Go.idx_at _ _ _ _ hlen
+  have c2 : ∀ y, Go.idx (ca ++ left :: y :: cb) ((ra.length : Int) + 1) = some y := fun y => Go.idx_at1 _ _ _ _ _ hlen
+  have c3 : ∀ y v, Go.setIdx (ca ++ left :: y :: cb) ((ra.length : Int) + 1) v = some (ca ++ left :: v :: cb) :=
+    fun y v => Go.set_at1 _ _ _ _ _ _ hlen
+  unfold go_levenshtein_loop4 cellI
+  by_cases hsc : sc = tc
+  · simp only [hsc, decide_true, if_true, bind, Option.bind, pure, e1, e2, e3, r1, r2, c1, c2, c3]
+  · simp only [hsc, decide_false, if_false, bind, Option.bind, pure, e1, e2, e3, r1, r2, c1, c2, c3]
+    by_cases h1 : left + 1 < diag + 1 <;> by_cases h2 : up + 1 < left + 1 <;> by_cases h3 : up + 1 < diag + 1 <;>
+      simp only [h1, h2, h3, decide_true, decide_false, if_true, if_false, bind, Option.bind, pure, e1, e2, e3, r1, r2, c1, c2, c3] <;>
+      first | rfl | (exfalso; omega)
+
+def castL (l : List Nat) : List Int := l.map (fun (n : Nat) => Int.ofNat n)
+
+@[simp] theorem castL_nil : castL [] = [] := rfl
+@[simp] theorem castL_cons (a : Nat) (l : List Nat) : castL (a :: l) = (a : Int) :: castL l := rfl
+@[simp] theorem castL_length (l : List Nat) : (castL l).length = l.length := by simp [castL]
+
+/-- the inner loop fills row `i+1` from column `j+1` on with the model's `levRow` -/
+theorem inner_loop (sc : Nat) (pre post : List (List Int)) :
+    ∀ (trR : List Nat) (ra : List Int) (prev : List Nat) (ca : List Int) (left : Nat) (xs : List Int),
+      prev.length = trR.length + 1 → xs.length = trR.length → ca.length = ra.length →
+      Go.forRangeFrom (go_levenshtein_loop4 sc (pre.length : Int)) trR (ra.length : Int)
+          (pre ++ (ra ++ castL prev) :: (ca ++ (left : Int) :: xs) :: post) =
+        some (Go.LoopR.next (pre ++ (ra ++ castL prev) :: (ca ++ (left : Int) :: castL (levRow sc trR prev left)) :: post)) := by
+  intro trR
+  induction trR with
+  | nil =>
+    intro ra prev ca left xs _ hx _
+    have : xs = [] := by cases xs <;> simp_all
+    subst this
+    simp [Go.forRangeFrom, levRow]
+  | cons tc rest ih =>
+    intro ra prev ca left xs hp hx hc
+    match prev, hp with
+    | diag :: up :: prev', hp =>
+      match xs, hx with
+      | x :: xs', hx =>
+        simp only [castL_cons, Go.forRangeFrom]
+        rw [loop4_step sc tc pre post ra (castL prev') ca xs' diag up left x hc]
+        simp only [cellI_cast]
+        have := ih (ra ++ [(diag : Int)]) (up :: prev') (ca ++ [(left : Int)]) (levCell sc tc diag up left) xs'
+          (by simpa using hp) (by simpa using hx) (by simp [hc])
+        simp only [List.length_append, List.length_cons, List.length_nil, List.append_assoc, List.cons_append,
+          List.nil_append, castL_cons, Int.natCast_add, Int.cast_ofNat_Int] at this
+        simp only [levRow, castL_cons]
+        exact this
+
+theorem levRow_len (sc : Nat) : ∀ (t prev : List Nat) (left : Nat), prev.length = t.length + 1 →
+    (levRow sc t prev left).length = t.length := by
+  intro t
+  induction t with
+  | nil => intro prev left _; simp [levRow]
+  | cons tc t ih =>
+    intro prev left h
+    match prev, h with
+    | diag :: up :: prev', h =>
+      simp only [levRow, List.length_cons]
+      rw [ih (up :: prev') _ (by simpa using h)]
+
+/-- the rows the first loop prepares: row `k` is `k, 0, …, 0` -/
+def startRows : Nat → Nat → Nat → List (List Int)
+  | _, 0, _ => []
+  | k, c + 1, m => ((k : Int) :: List.replicate m 0) :: startRows (k + 1) c m
+
+theorem loop3_step (tr : List Nat) (sc : Nat) (pre post : List (List Int)) (row : List Nat) (zs : List Int)
+    (hr : row.length = tr.length + 1) (hz : zs.length = tr.length) :
+    go_levenshtein_loop3 tr (pre.length : Int) sc (pre ++ castL row :: (((pre.length + 1 : Nat) : Int) :: zs) :: post) =
+      some (Go.LoopR.next (pre ++ castL row :: castL ((pre.length + 1) :: levRow sc tr row (pre.length + 1)) :: post)) := by
+  unfold go_levenshtein_loop3 Go.forRange
+  have := inner_loop sc pre post tr [] row [] (pre.length + 1) zs hr hz rfl
+  simp only [List.nil_append, List.length_nil, Int.ofNat_zero, Int.cast_ofNat_Int] at this
+  simp only [bind, Option.bind]
+  rw [this]
+  rfl
+
+/-- the outer loop computes the model's rows -/
+theorem outer_loop (tr : List Nat) :
+    ∀ (srR : List Nat) (pre : List (List Int)) (row : List Nat), row.length = tr.length + 1 →
+      ∃ pre', pre'.length = pre.length + srR.length ∧
+        Go.forRangeFrom (go_levenshtein_loop3 tr) srR (pre.length : Int)
+            (pre ++ castL row :: startRows (pre.length + 1) srR.length tr.length) =
+          some (Go.LoopR.next (pre' ++ [castL (levRows srR tr row pre.length)])) := by
+  intro srR
+  induction srR with
+  | nil => intro pre row _; exact ⟨pre, by simp, by simp [Go.forRangeFrom, startRows, levRows]⟩
+  | cons sc rest ih =>
+    intro pre row hr
+    simp only [List.length_cons, startRows, Go.forRangeFrom]
+    rw [loop3_step tr sc pre _ row _ hr (by simp)]
+    have hr' : ((pre.length + 1) :: levRow sc tr row (pre.length + 1)).length = tr.length + 1 := by
+      simp [levRow_len sc tr row _ hr]
+    obtain ⟨pre', hl, h⟩ := ih (pre ++ [castL row]) ((pre.length + 1) :: levRow sc tr row (pre.length + 1)) hr'
+    refine ⟨pre', by simp at hl; omega, ?_⟩
+    simp only [List.length_append, List.length_cons, List.length_nil, List.append_assoc, List.cons_append,
+      List.nil_append, Int.natCast_add, Int.cast_ofNat_Int] at h
+    simp only [levRows]
+    exact h
+
+theorem loop1_all (tr : List Nat) :
+    ∀ (cnt : Nat) (L : List (List Int)) (pre : List (List Int)), L.length = cnt →
+      Go.forRangeFrom (go_levenshtein_loop1 tr) L (pre.length : Int) (pre ++ List.replicate cnt []) =
+        some (Go.LoopR.next (pre ++ startRows pre.length cnt tr.length)) := by
+  intro cnt
+  induction cnt with
+  | zero => intro L pre h; have : L = [] := by cases L <;> simp_all
+            subst this; simp [Go.forRangeFrom, startRows]
+  | succ c ih =>
+    intro L pre h
+    match L, h with
+    | x :: L', h =>
+      have hm : Go.make (Go.len tr + 1) (0 : Int) = some (List.replicate (tr.length + 1) 0) := by
+        have h1 : (0:Int) ≤ Go.len tr + 1 := by simp [Go.len]; omega
+        have h2 : (Go.len tr + 1).toNat = tr.length + 1 := by simp only [Go.len]; omega
+        simp [Go.make, h1, h2]
+      have h0 : Go.setIdx ((0:Int) :: List.replicate tr.length (0:Int)) 0 (pre.length : Int) =
+          some ((pre.length : Int) :: List.replicate tr.length 0) :=
+        Go.set_at ([] : List Int) (List.replicate tr.length 0) 0 (pre.length : Int) 0 rfl
+      simp only [Go.forRangeFrom, go_levenshtein_loop1, List.replicate_succ, bind, Option.bind, hm,
+        Go.set_at pre _ _ _ pre.length rfl, Go.idx_at pre _ _ pre.length rfl, h0]
+      have := ih L' (pre ++ [(pre.length : Int) :: List.replicate tr.length 0]) (by simpa using h)
+      simp only [List.length_append, List.length_cons, List.length_nil, List.append_assoc, List.cons_append,
+        List.nil_append, Int.natCast_add, Int.cast_ofNat_Int, Nat.zero_add, Int.zero_add, Int.natCast_zero, Int.natCast_one] at this
+      simp only [pure]
+      simp only [startRows]
+      exact this
+
+theorem castL_append (a b : List Nat) : castL (a ++ b) = castL a ++ castL b := by simp [castL]
+
+theorem loop2_all :
+    ∀ (cnt : Nat) (L : List Int) (done : List Nat) (zs : List Int) (rows : List (List Int)),
+      L.length = cnt → zs.length = cnt →
+      Go.forRangeFrom go_levenshtein_loop2 L (done.length : Int) ((castL done ++ zs) :: rows) =
+        some (Go.LoopR.next ((castL done ++ castL (List.range' done.length cnt)) :: rows)) := by
+  intro cnt
+  induction cnt with
+  | zero => intro L done zs rows h hz
+            have : L = [] := by cases L <;> simp_all
+            have : zs = [] := by cases zs <;> simp_all
+            subst_vars; simp [Go.forRangeFrom]
+  | succ c ih =>
+    intro L done zs rows h hz
+    match L, h, zs, hz with
+    | x :: L', h, z :: zs', hz =>
+      have e0 : ∀ r, Go.idx (r :: rows) (0 : Int) = some r := fun r => Go.idx_at [] rows r 0 rfl
+      have e1 : ∀ r r', Go.setIdx (r :: rows) (0 : Int) r' = some (r' :: rows) := fun r r' => Go.set_at [] rows r r' 0 rfl
+      simp only [Go.forRangeFrom, go_levenshtein_loop2, bind, Option.bind, e0, e1,
+        Go.set_at (castL done) zs' z _ done.length (by simp)]
+      have := ih L' (done ++ [done.length]) zs' rows (by simpa using h) (by simpa using hz)
+      simp only [castL_append, castL_cons, castL_nil, List.length_append, List.length_cons, List.length_nil,
+        List.append_assoc, List.cons_append, List.nil_append, Int.natCast_add, Int.cast_ofNat_Int, Nat.zero_add, Int.zero_add, Int.natCast_zero, Int.natCast_one] at this
+      simp only [pure]
+      simp only [List.range'_succ, castL_cons]
+      exact this
+
+theorem levRows_len (tr : List Nat) : ∀ (s row : List Nat) (i : Nat), row.length = tr.length + 1 →
+    (levRows s tr row i).length = tr.length + 1 := by
+  intro s
+  induction s with
+  | nil => intro row i h; simpa [levRows] using h
+  | cons sc s ih =>
+    intro row i h
+    simp only [levRows]
+    apply ih
+    simp [levRow_len sc tr row _ h]
+
+
+theorem getLastD_eq (l : List Nat) (m : Nat) (h : l.length = m + 1) : l[m]? = some (l.getLastD 0) := by
+  have h1 : l.getLast? = l[l.length - 1]? := List.getLast?_eq_getElem? 
+  rw [h] at h1
+  simp only [Nat.add_sub_cancel] at h1
+  rw [← h1]
+  cases l with
+  | nil => simp at h
+  | cons a t => simp [List.getLastD, List.getLast?_eq_some_getLast]
+
+/-- **`levenshtein` as translated from closest.go never panics and computes the model's distance** (the
+    2-dimensional table of the Go function against the model's row-by-row programme). -/
+theorem trans_levenshtein (s t : Bytes) : go_levenshtein s t = some ((levenshtein s t : Nat) : Int) := by
+  unfold go_levenshtein levenshtein levRunes
+  generalize runes s = sr
+  generalize runes t = tr
+  by_cases hs : sr = []
+  · subst hs; simp [Go.len]
+  · by_cases ht : tr = []
+    · subst ht
+      have : ¬ ((sr.length : Int) = 0) := by
+        cases sr with
+        | nil => exact absurd rfl hs
+        | cons a l => simp; omega
+      simp [Go.len, this, hs]
+    · have hn : ¬ (Go.len sr = 0) := by
+        cases sr with
+        | nil => exact absurd rfl hs
+        | cons a l => simp [Go.len]; omega
+      have hm : ¬ (Go.len tr = 0) := by
+        cases tr with
+        | nil => exact absurd rfl ht
+        | cons a l => simp [Go.len]; omega
+      simp only [hn, hm, hs, ht, decide_false, if_false, Bool.false_eq_true]
+      -- the table is made
+      have hmk : Go.make (Go.len sr + 1) ([] : List Int) = some (List.replicate (sr.length + 1) []) := by
+        have h1 : (0:Int) ≤ Go.len sr + 1 := by simp [Go.len]; omega
+        have h2 : (Go.len sr + 1).toNat = sr.length + 1 := by simp only [Go.len]; omega
+        simp [Go.make, h1, h2]
+      -- first loop
+      have l1 := loop1_all tr (sr.length + 1) (List.replicate (sr.length + 1) []) [] (by simp)
+      simp only [List.length_nil, List.nil_append, startRows, Nat.zero_add] at l1
+      rw [show (((0 : Nat) : Int)) = (0 : Int) from rfl] at l1
+      -- second loop
+      have l2 := loop2_all (tr.length + 1) ((0:Int) :: List.replicate tr.length 0) [] ((0:Int) :: List.replicate tr.length 0)
+        (startRows 1 sr.length tr.length) (by simp) (by simp)
+      simp only [List.length_nil, castL_nil, List.nil_append, Int.natCast_zero] at l2
+      -- third loop
+      obtain ⟨pre', hpl, l3⟩ := outer_loop tr sr [] (List.range' 0 (tr.length + 1)) (by simp)
+      simp only [List.length_nil, List.nil_append, Int.natCast_zero, Nat.zero_add] at l3 hpl
+      have hrow := levRows_len tr sr (List.range' 0 (tr.length + 1)) 0 (by simp)
+      have e0 : ∀ (r : List Int) rows, Go.idx (r :: rows) (0 : Int) = some r := fun r rows => Go.idx_at [] rows r 0 rfl
+      simp only [bind, Option.bind, pure, hmk, Go.forRange, l1, e0, l2, l3]
+      simp only [Go.len]
+      rw [Go.idx_at pre' [] _ sr.length hpl]
+      simp only [Go.idx_nat]
+      simp only [castL, List.getElem?_map, getLastD_eq _ _ hrow, Option.map_some]
+      simp [List.range_eq_range']
+
+/-! ### `closestChoice` -/
 
 theorem ccLoop (cmd : Bytes) (choices : List Bytes) :
     ∀ (xs pre : List Bytes) (best : Bytes) (d : Nat) (k : Nat),
@@ -69,5 +329,11 @@ theorem trans_closestChoice_partial (cmd : Bytes) (choices : List Bytes)
     simp only [bind, Option.bind, pure, Go.idx, closestChoice]
     have : (0:Int) ≤ (k' : Int) := by omega
     simp [this, h2]
+
+/-- **`closestChoice` as translated from closest.go never panics and returns the model's choice and distance.** -/
+theorem trans_closestChoice (cmd : Bytes) (choices : List Bytes) :
+    go_closestChoice cmd choices =
+      some ((closestChoice cmd choices).1, ((closestChoice cmd choices).2 : Int)) :=
+  trans_closestChoice_partial cmd choices (fun c _ => trans_levenshtein cmd c)
 
 end GoFlags.C20
